@@ -417,6 +417,17 @@ def _consistent(log, g_self, g_remote=None):
 
 
 def _fallback(ctx, rule, e):
+    import os
+    if os.environ.get('DC_DEBUG'):
+        import traceback
+        traceback.print_exc()
+        tb = e.__traceback__
+        while tb is not None:
+            it_ = tb.tb_frame.f_locals.get('self')
+            if it_ is not None and hasattr(it_, 'where'):
+                print('   at', it_.where)
+                break
+            tb = tb.tb_next
     ctx.note = getattr(ctx, 'note', [])
     ctx.note.append('%s: semantic summary not available (%s); structural rules used instead' % (rule, e))
     return False
